@@ -691,7 +691,7 @@ class Ctx:
         """locate `impl From<argty> for target` among MIR bodies by signature"""
         hits = []
         for name, f in self.prog.fns.items():
-            if name.endswith('::from') and '<impl at' in name:
+            if name.split('#')[0].endswith('::from') and '<impl at' in name:
                 sig = f.sig
                 m = re.match(r'^fn .*?\(_1: (.*?)\) -> (.*?) \{$', sig, re.S)
                 if not m: continue
